@@ -53,6 +53,7 @@ type sim struct {
 	bootAt int64 // clock when the store of the current process was opened
 	focus  string
 	burst  int
+	gen    map[string]int // key slot -> generation of its name
 	head   []string
 }
 
@@ -121,7 +122,7 @@ func drawCfg(c *core.RunCtx) cfg {
 }
 
 func Run(c *core.RunCtx) {
-	s := &sim{c: c, t: c.Tape}
+	s := &sim{c: c, t: c.Tape, gen: map[string]int{}}
 	s.g = drawCfg(c)
 	c.Log("cfg", "%+v", s.g)
 	// a run that does not end (a goroutine of the node blocked on a lock that is
@@ -261,14 +262,44 @@ func (s *sim) bubble() {
 		}
 		for _, typ := range g.types {
 			for k := 0; k < 2 && !s.failed(); k++ {
-				s.exec(s.fullRead(byte(typ), keyName(byte(typ), k)))
+				s.exec(s.fullRead(byte(typ), s.name(byte(typ), k)))
 			}
 		}
 	}
 	c.SimMs = (s.now() - time.Date(2000, 1, 1, 0, 0, 0, 0, time.UTC).UnixNano()) / 1e6
 }
 
-func keyName(typ byte, i int) string { return fmt.Sprintf("t:%c%d", typ, i) }
+// name of key slot i of a type. Under local_deletion a name is retired when a
+// restart happens after background deletion may have touched it: replay of
+// the log does not repeat the node-local deletions at the same points, so
+// from then on the documents promise nothing checkable about that name.
+func (s *sim) name(typ byte, i int) string {
+	slot := fmt.Sprintf("t:%c%d", typ, i)
+	if g := s.gen[slot]; g > 0 {
+		return fmt.Sprintf("%s_%d", slot, g)
+	}
+	return slot
+}
+
+func (s *sim) retireTouched() {
+	for _, id := range core.SortedKeys(s.m.LDTouched) {
+		key := id[2:]
+		slot := key
+		if i := strings.IndexByte(slot, '_'); i >= 0 {
+			slot = slot[:i]
+		}
+		if s.name(id[0], int(slot[3]-'0')) != key {
+			continue
+		}
+		s.gen[slot]++
+		s.m.Retire(id)
+		s.c.Log("retire", "%s", id)
+		s.c.Probe("ld_name_retired_at_restart")
+		if s.focus == id {
+			s.focus, s.burst = "", 0
+		}
+	}
+}
 
 func (s *sim) fullRead(typ byte, key string) Op {
 	switch typ {
@@ -312,6 +343,9 @@ func (s *sim) restart(kill bool) {
 	c, cl := s.c, s.cl
 	m := cl.M[0]
 	gh, live := s.m.Ghosts(s.now()), s.m.LiveExpiries(s.now())
+	if s.g.ld {
+		s.retireTouched()
+	}
 	if kill {
 		c.Log("kill", "at %s", fmtT(s.now()))
 		c.Fault("kill")
@@ -443,7 +477,7 @@ func (s *sim) command() {
 	} else {
 		s.burst = 0
 		typ = g.types[t.Choose(len(g.types))]
-		key = keyName(typ, t.Choose(2))
+		key = s.name(typ, t.Choose(2))
 	}
 	var op Op
 	if t.Bool(g.readPm) {
@@ -488,7 +522,7 @@ func (s *sim) genExpiry(typ byte, key string) Op {
 		switch typ {
 		case 'k':
 			if t.Bool(300) {
-				return Op{Name: "del", Typ: typ, Keys: []string{keyName('k', 0), keyName('k', 1)}}
+				return Op{Name: "del", Typ: typ, Keys: []string{s.name('k', 0), s.name('k', 1)}}
 			}
 			return Op{Name: "del", Typ: typ, Keys: k}
 		case 'b':
@@ -514,9 +548,9 @@ func (s *sim) genRead(typ byte, key string) Op {
 		case 2:
 			return o("exists")
 		case 3:
-			return Op{Name: "exists", Typ: typ, Keys: []string{keyName('k', 0), keyName('k', 1)}}
+			return Op{Name: "exists", Typ: typ, Keys: []string{s.name('k', 0), s.name('k', 1)}}
 		case 4:
-			return Op{Name: "mget", Typ: typ, Keys: []string{keyName('k', 0), keyName('k', 1)}}
+			return Op{Name: "mget", Typ: typ, Keys: []string{s.name('k', 0), s.name('k', 1)}}
 		default:
 			return o("strlen")
 		}
@@ -599,7 +633,7 @@ func (s *sim) genWrite(typ byte, key string) Op {
 		case 1:
 			return o("getset", s.val())
 		case 2:
-			return Op{Name: "plset", Typ: typ, Keys: []string{keyName('k', 0), keyName('k', 1)}, Args: []string{s.val(), s.val()}}
+			return Op{Name: "plset", Typ: typ, Keys: []string{s.name('k', 0), s.name('k', 1)}, Args: []string{s.val(), s.val()}}
 		case 3:
 			return o("append", s.val())
 		case 4:
